@@ -237,9 +237,9 @@ func gen(r *vh.Rand, tier string, n int) []in {
 	if thorough {
 		strs = enum(vocab9, 5)
 	} else {
-		// 1..3 components over the nine words, 4 components (always refused: too many) over six of them
+		// 1..3 components over the nine words, 4 components (always refused: too many) over five of them
 		strs = enum(vocab9, 3)
-		for _, s := range enum(vocab6, 4) {
+		for _, s := range enum(vocab5, 4) {
 			if strings.Count(s, "/") == 3 {
 				strs = append(strs, s)
 			}
@@ -258,7 +258,7 @@ func gen(r *vh.Rand, tier string, n int) []in {
 		}
 	}
 	// 3. Resolve / ResolvePinned on all pairs
-	curs, news, tracks := enum(vocab5, 3), enum(vocab6, 2), enum(vocabP, 2)
+	curs, news, tracks := enum(vocab5, 3), enum(vocab5, 2), enum(vocabP, 2)
 	pnews := enum(vocabP, 3)
 	if thorough {
 		curs, news = enum(vocab9, 3), enum(vocab9, 2)
